@@ -815,6 +815,12 @@ theorem nid_unique_inv (b : Backend) (ops : List TOp) :
   have h : NidOK (trun (Client.empty b) ops) := nid_inv_run _ ops (nidInv_empty b)
   exact ⟨h.uniq, nidInv_routes _ h⟩
 
+/-- … and `cJoined`, the client of the closed witnesses, is reachable, hence satisfies `NidOK` -/
+example (b : Backend) : NidOK (cJoined b) := by
+  have : cJoined b = trun (Client.empty b) [.inv (.process 10 wInv), .inv (.accept wInv), .commit wCommit] := by
+    cases b <;> rfl
+  rw [this]; exact nid_inv_run _ _ (nidInv_empty b)
+
 /-- the invariant is not vacuous: a history in which the recipient joins group 1, group 1 rotates to id 300,
     and the recipient then holds group 2 under group 1's FORMER id 101 -/
 example : ((trun (Client.empty .sql)
